@@ -326,7 +326,9 @@ def run_one(prop, m, jobs, suite, desel, extra_props):
             rec.setdefault("status", "SURVIVED(check)")
             return rec
         t0 = time.time()
-        args = [PY, "-m", "pytest", "-q", "-x", "-p", "no:cacheprovider", "--timeout=600", "-n", "4", "tests"]
+        # tests/masking_tool_test.py (a matplotlib widget) fails under xdist on the clean tree as well
+        args = [PY, "-m", "pytest", "-q", "-x", "-p", "no:cacheprovider", "--timeout=600", "-n", "4", "tests",
+                "--ignore=tests/masking_tool_test.py"]
         for d in desel:
             args += ["--ignore=" + d[7:]] if d.startswith("IGNORE:") else ["--deselect", d]
         r = subprocess.run(args, cwd="/repo", env=dict(os.environ, PYTHONPATH=str(tmp / "src")),
